@@ -157,6 +157,9 @@ func runOps(sc SeqCheck, ops []Op) (own []Violation, trace []string) {
 
 // RunSeq is the body shared by all SEQ-based tests.
 func RunSeq(t *testing.T, sc SeqCheck) {
+	if sc.Profile.ChopPct == 0 {
+		sc.Profile.ChopPct = 3
+	}
 	if p := os.Getenv("VERIF_MINIMIZE_IN"); p != "" {
 		minimizeSeq(t, sc, p)
 		return
